@@ -10,8 +10,24 @@ kf = json.load(open(V + '/known_findings.json'))['findings']
 fixed = '\n'.join('| %s | %s | `%s` | %s |' % (f['id'], f['property'], f['commit'], f['what']) for f in kf if f['status'] == 'fixed')
 known = '\n'.join('| %s | %s | %s |' % (f['id'], f['property'], f['what']) for f in kf if f['status'] != 'fixed')
 rows = ['| seeded change | breaks | what it needs to manifest | caught by | how |', '|---|---|---|---|---|']
+import re
+def short(m, mp):
+    t = m.get('needs', '')
+    if not t or len(t) < 40:
+        rd0 = open(os.path.join(os.path.dirname(mp), 'README.md')).read()
+        mm = re.search(r'What it needs to manifest\**\s*:\s*(.*?)(?:\n[A-Z][a-z]+ [a-z]*\s*[a-z]*:|\n\s*\n)', rd0, flags=re.S)
+        t = re.sub(r'\s+', ' ', mm.group(1)).strip() if mm else ''
+    if not t:
+        rd = open(os.path.join(os.path.dirname(mp), 'README.md')).read()
+        sents = [x for x in re.split(r'(?<=[.:])\s+', re.sub(r'\s+', ' ', rd)) if re.search(r'(?i)\bneeds?\b|manifest|shows? up', x)]
+        t = ' '.join(sents[:2])
+    t = re.sub(r'^(?i:needs?,? (in order )?to manifest|needs)\**\s*:?\s*', '', t).strip()
+    t = t.replace('|', '/')
+    return t if len(t) <= 230 else t[:227].rsplit(' ', 1)[0] + ' …'
 for mp in sorted(glob.glob(V + '/seeded/*/meta.json')):
     m = json.load(open(mp))
+    m['needs'] = short(m, mp)
+    m['summary'] = m['summary'].replace('|', '/')
     rows.append('| `%s` %s | %s | %s | %s | %s |' % (os.path.basename(os.path.dirname(mp)), m['summary'], m['property'], m['needs'],
                 ', '.join(m['caught_by']) or '**missed**', m['how']))
 doc = head + inv + tail.replace('@FIXED@', fixed).replace('@KNOWN@', known).replace('@SEEDED@', '\n'.join(rows))
